@@ -43,7 +43,7 @@ def n_cases(tier):
 def tasks(seed, tier, n):
     ts = []
     for i in range(n):
-        mode = 'parser' if i % 7 == 6 else 'main'
+        mode = 'parser' if i % 7 in (3, 6) else 'main'
         ts.append({'case': i, 'mode': 'main', 'kind': mode, 'hclass': i % 4})
     return ts
 
